@@ -104,7 +104,7 @@ Section Oracles.
      words (and the injection-risk rule), joined - no early exit *)
   Theorem C03_simple : forall c ss fs ks, let t := T $"command" ss fs ks in
     walk c t = combine (wparts simple astr mredir cdres injrisk rulematch c (children "words" t) ++
-                        cmd_names astr c t ++ cmd_inj injrisk c t ++
+                        cmd_env t ++ cmd_names astr c t ++ cmd_inj injrisk c t ++
                         redirs_of simple astr mredir cdres injrisk rulematch c t ++
                         cmd_proper simple rulematch c t).
   Proof. exact (walk_command simple astr mredir cdres injrisk rulematch). Qed.
